@@ -392,11 +392,15 @@ def generate(repo, outdir):
     outdir = Path(outdir)
     kernels = [k for _, k in d["base"]] + sorted(inv, key=lambda n: (X86_FILES.index(inv[n]["file"]), n))
     L = ["(* GENERATED by tools/gen.d/dispatch.py from src/simd/dispatch.c, include/carquet/carquet.h - do not edit. *)",
-         "From Coq Require Import List Bool.", "Import ListNotations.", "",
+         "From Coq Require Import List Bool String.", "Import ListNotations.", "Local Open Scope string_scope.", "",
          "(* the slots of carquet_simd_dispatch_t, in declaration order *)",
          "Inductive slot : Set := " + " | ".join("S_" + s for s in d["slots"]) + ".",
          "Scheme Equality for slot.",
-         "Definition all_slots : list slot := " + coq_list(["S_" + s for s in d["slots"]], 6) + ".", "",
+         "Definition all_slots : list slot := " + coq_list(["S_" + s for s in d["slots"]], 6) + ".",
+         "Definition slot_index (s : slot) : nat :=\n  match s with\n" +
+         "\n".join('  | S_%s => %d' % (x, i) for i, x in enumerate(d["slots"])) + "\n  end.",
+         "Definition slot_name (s : slot) : string :=\n  match s with\n" +
+         "\n".join('  | S_%s => "%s"' % (x, x) for x in d["slots"]) + "\n  end.", "",
          "(* x86 ISA features: those a kernel may require; [detected_features] are the has_* fields detection reports *)",
          "Inductive feature : Set := " + " | ".join("F_" + f for f in FEATURES) + ".",
          "Scheme Equality for feature.",
@@ -428,6 +432,8 @@ def generate(repo, outdir):
     for n in names:
         M.append("  | K_%s => %s" % (n, coq_list(['"%s"' % i for i in inv[n]["intrinsics"]], 4, "      ")))
     M += ["  | _ => []", "  end.", "",
+          "Definition kernel_index (k : kernel) : nat :=\n  match k with\n" +
+          "\n".join('  | K_%s => %d' % (k, i) for i, k in enumerate(kernels)) + "\n  end.", "",
           "Definition kernel_name (k : kernel) : string :=\n  match k with\n" +
           "\n".join('  | K_%s => "%s"' % (k, k) for k in kernels) + "\n  end.", "",
           "(* hence the ISA features each function needs in order to execute *)",
@@ -441,7 +447,7 @@ def generate(repo, outdir):
         M.append("  | K_%s => %s" % (n, coq_list(["F_" + FLAG_FEATURE[f] for f in a["flags"][inv[n]["file"]]], 8)))
     M += ["  | _ => []", "  end.", ""]
     write_if_changed(outdir / "Intrinsics_gen.v", "\n".join(M) + "\n")
-    return {"Dispatch_slots": len(d["slots"]),
+    return {"Dispatch_slots": len(d["slots"]), "Dispatch_slot_names": d["slots"], "Dispatch_kernel_names": kernels,
             "Dispatch_blocks": [[feats, len(asg)] for feats, asg in d["blocks"]],
             "Intrinsics_functions": len(inv), "Intrinsics_distinct": len({i for v in inv.values() for i in v["intrinsics"]}),
             "Intrinsics_headers": a["headers"]}
